@@ -9,7 +9,11 @@ namespace Restli.Strconv
 
 /-! ## integers -/
 
-def digitsOfNat (n : Nat) : Bytes := (Nat.toDigits 10 n).map (fun c => UInt8.ofNat c.toNat)
+/-- decimal digits of a natural number, most significant first (what `strconv` prints) -/
+def digitsOfNat (n : Nat) : Bytes :=
+  if h : n < 10 then [UInt8.ofNat (48 + n)] else digitsOfNat (n / 10) ++ [UInt8.ofNat (48 + n % 10)]
+termination_by n
+decreasing_by omega
 
 /-- `strconv.FormatInt(v, 10)` / `jwriter.Int64` -/
 def formatInt (v : Int) : Bytes :=
@@ -23,11 +27,14 @@ def natOfDigits : Bytes → Nat → Nat
 
 /-- `strconv.ParseInt(s, 10, bits)`: optional sign, one or more decimal digits, in range.
 (With an explicit base 10 Go accepts neither prefixes nor underscores.) -/
+def splitSign (s : Bytes) : Bool × Bytes :=
+  match s with
+  | 43 :: r => (false, r)
+  | 45 :: r => (true, r)
+  | r => (false, r)
+
 def parseInt (bits : Nat) (s : Bytes) : Option Int :=
-  let (neg, body) := match s with
-    | 43 :: r => (false, r)
-    | 45 :: r => (true, r)
-    | r => (false, r)
+  let (neg, body) := splitSign s
   if body.isEmpty || !body.all isDigit then none
   else
     let n := natOfDigits body 0
